@@ -128,13 +128,13 @@ class workq:
             }
 
         e = job.error
-        if e is None:
+        if not e:
+            # an empty error report is a success everywhere else (ttl in finishjob, clients testing job["error"])
             c["success"] += 1
+        elif e in ("timeout", "killed"):
+            c[e] += 1
         else:
-            if e in ("timeout", "killed"):
-                c[e] += 1
-            elif e:
-                c["error"] += 1
+            c["error"] += 1
 
     def handletimeouts(self):
         now = time.time()
